@@ -31,19 +31,50 @@ func init() {
 const nDispatch = "(" + modPath + "/input.Dispatcher).Dispatch"
 const nIncInvalid = "(" + modPath + "/input.Dispatcher).IncNumInvalid"
 
-func c13r1(c *Check) {
-	fn := c.P.Func("input", "*Pickle", "Handle")
-	loops := loopsOf(fn)
-	var disp ssa.Instruction
-	allInstrs(fn, func(in ssa.Instruction) {
-		if isCallNamed(in, nDispatch) {
-			disp = in
-		}
-	})
+// pickleItemFunc locates the code that handles one decoded item: the function (Handle itself or
+// a helper method it calls) that contains the Dispatch call, and the instruction in Handle that
+// stands for it (the Dispatch call, or the call of the helper).
+func pickleItemFunc(c *Check) (handle, item *ssa.Function, site ssa.Instruction, disp ssa.Instruction) {
+	handle = c.P.Func("input", "*Pickle", "Handle")
+	for _, g := range workerFuncs(c.P, handle) {
+		allInstrs(g, func(in ssa.Instruction) {
+			if isCallNamed(in, nDispatch) {
+				disp, item = in, g
+			}
+		})
+	}
 	if disp == nil {
 		anchorFail("Pickle.Handle: no Dispatch call")
 	}
-	l := enclosingLoop(loops, disp.Block())
+	if item == handle {
+		return handle, item, disp, disp
+	}
+	// the call in Handle through which the item function is reached
+	allInstrs(handle, func(in ssa.Instruction) {
+		call, ok := in.(*ssa.Call)
+		if !ok {
+			return
+		}
+		g := call.Call.StaticCallee()
+		if g == nil {
+			return
+		}
+		for _, w := range workerFuncs(c.P, g) {
+			if w == item {
+				site = in
+			}
+		}
+	})
+	if site == nil {
+		anchorFail("Pickle.Handle: the function that dispatches items is not called from Handle")
+	}
+	return
+}
+
+func c13r1(c *Check) {
+	fn, _, site, disp := pickleItemFunc(c)
+	loops := loopsOf(fn)
+	l := enclosingLoop(loops, site.Block())
 	if l == nil {
 		anchorFail("Pickle.Handle: Dispatch is not in a loop")
 	}
@@ -67,7 +98,8 @@ func c13r1(c *Check) {
 			}
 			return nil
 		},
-		Stop: func(b *ssa.BasicBlock) bool { return b == l.Header },
+		Stop:   func(b *ssa.BasicBlock) bool { return b == l.Header },
+		Inline: inlineSameRecv(fn), // the per-item code may be a helper method
 	}
 	paths, trunc := EnumPaths(fn, body, cfg)
 	c.Stat("paths", len(paths))
@@ -122,23 +154,50 @@ func slotOf(v ssa.Value) (slotKey, bool) {
 	return slotKey{ia.X, k}, true
 }
 
+// slotsOf: the tuple slots a value stands for: the slot it is loaded from, or — for a parameter
+// of a helper — the slots of the arguments at every call site of the helper.
+func slotsOf(p *Prog, v ssa.Value, depth int) []slotKey {
+	if mi, ok := v.(*ssa.MakeInterface); ok {
+		v = mi.X
+	}
+	if sk, ok := slotOf(v); ok {
+		return []slotKey{sk}
+	}
+	if par, ok := v.(*ssa.Parameter); ok && depth < 2 {
+		if args, ok := p.paramArgs(par); ok {
+			var out []slotKey
+			for _, a := range args {
+				out = append(out, slotsOf(p, a, depth+1)...)
+			}
+			return out
+		}
+	}
+	return nil
+}
+
+// pickleItemFuncs: the function handling one item plus the plain helper functions of the package it calls.
+func pickleItemFuncs(c *Check) (*ssa.Function, []*ssa.Function) {
+	_, fn, _, _ := pickleItemFunc(c)
+	return fn, samePkgCallees(c.P, fn)
+}
+
 func c13r2(c *Check) {
-	fn := c.P.Func("input", "*Pickle", "Handle")
+	fn, fns := pickleItemFuncs(c)
 	sets := map[slotKey]map[string]bool{}
-	allInstrs(fn, func(in ssa.Instruction) {
-		ta, ok := in.(*ssa.TypeAssert)
-		if !ok || !ta.CommaOk {
-			return
-		}
-		sk, ok := slotOf(ta.X)
-		if !ok {
-			return
-		}
-		if sets[sk] == nil {
-			sets[sk] = map[string]bool{}
-		}
-		sets[sk][types.TypeString(ta.AssertedType, nil)] = true
-	})
+	for _, f := range fns {
+		allInstrs(f, func(in ssa.Instruction) {
+			ta, ok := in.(*ssa.TypeAssert)
+			if !ok || !ta.CommaOk {
+				return
+			}
+			for _, sk := range slotsOf(c.P, ta.X, 0) {
+				if sets[sk] == nil {
+					sets[sk] = map[string]bool{}
+				}
+				sets[sk][types.TypeString(ta.AssertedType, nil)] = true
+			}
+		})
+	}
 	// the data tuple: the slice with scalar switches on both slot 0 and slot 1 (more than 3 types each)
 	var found bool
 	for sk, s0 := range sets {
@@ -172,78 +231,110 @@ func c13r2(c *Check) {
 }
 
 func c13r3(c *Check) {
-	fn := c.P.Func("input", "*Pickle", "Handle")
+	fn, fns := pickleItemFuncs(c)
 	type chk struct {
 		ta *ssa.TypeAssert
 		sk slotKey
 	}
-	var checked []chk
-	allInstrs(fn, func(in ssa.Instruction) {
-		if ta, ok := in.(*ssa.TypeAssert); ok && ta.CommaOk {
-			if sk, ok := slotOf(ta.X); ok {
-				checked = append(checked, chk{ta, sk})
-			} else {
-				checked = append(checked, chk{ta, slotKey{ta.X, -1}})
-			}
-		}
-	})
 	n := 0
-	allInstrs(fn, func(in ssa.Instruction) {
-		ta, ok := in.(*ssa.TypeAssert)
-		if !ok || ta.CommaOk {
-			return
-		}
-		n++
-		sk, ok := slotOf(ta.X)
-		if !ok {
-			sk = slotKey{ta.X, -1}
-		}
-		guarded := false
-		for _, ck := range checked {
-			if ck.sk != sk || !types.Identical(ck.ta.AssertedType, ta.AssertedType) {
-				continue
+	for _, f := range fns {
+		var checked []chk
+		allInstrs(f, func(in ssa.Instruction) {
+			if ta, ok := in.(*ssa.TypeAssert); ok && ta.CommaOk {
+				if sk, ok := slotOf(ta.X); ok {
+					checked = append(checked, chk{ta, sk})
+				} else {
+					checked = append(checked, chk{ta, slotKey{ta.X, -1}})
+				}
 			}
-			// ok result of ck.ta tested by an If whose true edge dominates ta
-			for _, r := range *ck.ta.Referrers() {
-				ex, ok := r.(*ssa.Extract)
-				if !ok || ex.Index != 1 {
+		})
+		allInstrs(f, func(in ssa.Instruction) {
+			ta, ok := in.(*ssa.TypeAssert)
+			if !ok || ta.CommaOk {
+				return
+			}
+			n++
+			sk, ok := slotOf(ta.X)
+			if !ok {
+				sk = slotKey{ta.X, -1}
+			}
+			guarded := false
+			for _, ck := range checked {
+				if ck.sk != sk || !types.Identical(ck.ta.AssertedType, ta.AssertedType) {
 					continue
 				}
-				for _, rr := range *ex.Referrers() {
-					if ifi, ok := rr.(*ssa.If); ok && edgeDominates(ifi.Block(), ifi.Block().Succs[0], ta.Block()) {
-						guarded = true
+				// ok result of ck.ta tested by an If whose true edge dominates ta
+				for _, r := range *ck.ta.Referrers() {
+					ex, ok := r.(*ssa.Extract)
+					if !ok || ex.Index != 1 {
+						continue
 					}
-				}
-			}
-		}
-		c.Judge(guarded, fmt.Sprintf("input.Pickle.Handle unchecked assertion .(%s) #%d", types.TypeString(ta.AssertedType, nil), n), c.At(ta), "repeats a checked assertion of the same type on the same slot", "a type assertion without comma-ok is applied to data decoded from the network without a guarding type test: a crafted pickle panics the relay")
-	})
-	// scalar formatting: ints verbatim (%d), float values to six decimals (%f), float timestamps as integers (%.0f)
-	got := map[string]bool{}
-	allInstrs(fn, func(in ssa.Instruction) {
-		call, ok := in.(*ssa.Call)
-		if !ok || calleeName(call.Common()) != "fmt.Sprintf" {
-			return
-		}
-		f, _ := constString(call.Call.Args[0])
-		slot := int64(-1)
-		if sl, ok := call.Call.Args[1].(*ssa.Slice); ok {
-			if al, ok := sl.X.(*ssa.Alloc); ok {
-				for _, r := range *al.Referrers() {
-					if ia, ok := r.(*ssa.IndexAddr); ok {
-						for _, rr := range *ia.Referrers() {
-							if st, ok := rr.(*ssa.Store); ok {
-								if sk, ok := slotOf(st.Val); ok {
-									slot = sk.idx
-								}
-							}
+					for _, rr := range *ex.Referrers() {
+						if ifi, ok := rr.(*ssa.If); ok && edgeDominates(ifi.Block(), ifi.Block().Succs[0], ta.Block()) {
+							guarded = true
 						}
 					}
 				}
 			}
-		}
-		got[fmt.Sprintf("slot%d:%s", slot, f)] = true
-	})
+			c.Judge(guarded, fmt.Sprintf("input.Pickle.Handle unchecked assertion .(%s) #%d", types.TypeString(ta.AssertedType, nil), n), c.At(ta), "repeats a checked assertion of the same type on the same slot", "a type assertion without comma-ok is applied to data decoded from the network without a guarding type test: a crafted pickle panics the relay")
+		})
+	}
+	// scalar formatting: ints verbatim (%d), float values to six decimals (%f), float timestamps as integers (%.0f)
+	got := map[string]bool{}
+	for _, f := range fns {
+		f := f
+		allInstrs(f, func(in ssa.Instruction) {
+			call, ok := in.(*ssa.Call)
+			if !ok || calleeName(call.Common()) != "fmt.Sprintf" {
+				return
+			}
+			elems, ok := variadicElems(call.Call.Args[1])
+			if !ok || len(elems) != 1 {
+				return
+			}
+			// bindings: the helper's parameters at each of its call sites (one empty binding for the item function itself)
+			type binding map[*ssa.Parameter]ssa.Value
+			bindings := []binding{{}}
+			if f != fn {
+				bindings = nil
+				for _, e := range c.P.CG().In[f] {
+					cc := callCommon(e.Site)
+					if cc == nil || e.Kind != EdgeCall || e.Dyn {
+						continue
+					}
+					b := binding{}
+					for i, p := range f.Params {
+						if i < len(cc.Args) {
+							b[p] = cc.Args[i]
+						}
+					}
+					bindings = append(bindings, b)
+				}
+			}
+			for _, b := range bindings {
+				bind := func(v ssa.Value) ssa.Value {
+					if mi, ok := v.(*ssa.MakeInterface); ok {
+						v = mi.X
+					}
+					if p, ok := v.(*ssa.Parameter); ok {
+						if a, ok := b[p]; ok {
+							if mi, ok := a.(*ssa.MakeInterface); ok {
+								return mi.X
+							}
+							return a
+						}
+					}
+					return v
+				}
+				format, _ := constString(bind(call.Call.Args[0]))
+				slot := int64(-1)
+				if sk, ok := slotOf(bind(elems[0])); ok {
+					slot = sk.idx
+				}
+				got[fmt.Sprintf("slot%d:%s", slot, format)] = true
+			}
+		})
+	}
 	wantF := []string{"slot1:%d", "slot1:%f", "slot0:%d", "slot0:%.0f"}
 	okF := len(got) == len(wantF)
 	for _, w := range wantF {
@@ -320,6 +411,20 @@ func valueFromSlot(v ssa.Value, k int64) bool {
 					}
 				}
 				return
+			}
+			// a module helper that renders / unpacks the slot value it is given
+			if g := x.Call.StaticCallee(); g != nil && g.Blocks != nil && ModuleFunc(g) {
+				n := 0
+				for _, a := range x.Call.Args {
+					if _, isConst := a.(*ssa.Const); isConst {
+						continue
+					}
+					n++
+					rec(a)
+				}
+				if n > 0 {
+					return
+				}
 			}
 			okAll = false
 		case *ssa.MakeInterface:
